@@ -66,6 +66,10 @@ def cases(tier, seed):
                 for fz in (True, False):
                     yield f"C11|bp|N={N},{regime},fz={int(fz)},high-rate", {"kind": "bp", "N": N, "ks": [N - 1, N - 2, N // 2], "fz": fz, "regime": regime, "tier": tier}
                     yield f"C11|sc|N={N},{regime},fz={int(fz)},pi=0,high-rate", {"kind": "sc", "N": N, "ks": [N - 1, N - 2, N // 2], "fz": fz, "pi": False, "regime": regime, "tier": tier}
+    # the encoder's `dtype` option (bit dtype of messages / codewords); decoders built on such an encoder still take real-valued LLRs
+    for dt in ("float64", "float16", "int64", "int32", "uint8"):
+        for N in (8, 16):
+            yield f"C11|dtype|{dt},N={N}", {"kind": "dtype", "dtype": dt, "N": N, "tier": tier}
     for N in (2, 4, 8, 16):
         for regime in ("sum_product", "min_sum"):
             for pi in (False, True):
@@ -80,7 +84,7 @@ def cost(p):
 
 
 def component_of(p):
-    return {"rank": "encoder", "enc": "encoder", "mask": "encoder", "sc": "sc", "bp": "polar-bp", "sc-rule": "sc"}[p["kind"]]
+    return {"rank": "encoder", "enc": "encoder", "mask": "encoder", "sc": "sc", "bp": "polar-bp", "sc-rule": "sc", "dtype": "encoder"}[p["kind"]]
 
 
 def _Q():
@@ -113,7 +117,7 @@ def _msgs(k):
 
 
 def execute(p, res):
-    {"rank": rank_case, "enc": enc_case, "mask": mask_case, "sc": sc_case, "bp": bp_case, "sc-rule": sc_rule_case}[p["kind"]](p, res)
+    {"rank": rank_case, "enc": enc_case, "mask": mask_case, "sc": sc_case, "bp": bp_case, "sc-rule": sc_rule_case, "dtype": dtype_case}[p["kind"]](p, res)
 
 
 def rank_case(p, res):
@@ -195,6 +199,67 @@ def enc_case(p, res):
         check_encoder(enc, N, k, PR.info_set_from_ranking(Q, N, k), fz, pi, cfg, res, _msgs(k))
         res.outcome((N, k))
     res.sample({"N": N, "ks": p["ks"], "frozen_zeros": fz, "polar_i": pi})
+
+
+def dtype_case(p, res):
+    """PolarCodeEncoder(..., dtype=d): messages and codewords carry dtype d, the transform is the same; SC / BP decoders built on that encoder
+    decode real-valued LLRs exactly as decoders built on the default encoder do (clean words at every magnitude, and a fixed set of noisy words)"""
+    import torch
+    from kaira.models.fec.decoders import BeliefPropagationPolarDecoder, SuccessiveCancellationDecoder
+    dt = getattr(torch, p["dtype"])
+    N = p["N"]
+    Q = _Q()
+    ks = list(range(1, N)) if N == 8 else [1, 5, 8, 11, 14, 15]
+    for k in ks:
+        for fz in (True, False):
+            cfg = f"N={N},k={k},fz={int(fz)},dtype={p['dtype']}"
+            v = lambda comp, clause, d, f=None: res.viol(comp, cfg, clause, d, f)  # noqa: E731
+            try:
+                enc = _enc(k, N, frozen_zeros=fz, load_rank=True, dtype=dt)
+            except Exception:  # noqa: BLE001
+                res.rejected += 1           # declining a dtype is allowed
+                continue
+            enc0 = _enc(k, N, frozen_zeros=fz, load_rank=True)
+            msgs = _msgs(k)
+            if len(msgs) > 256:
+                msgs = msgs[:128] + msgs[-128:]
+            x0 = torch.tensor(msgs, dtype=torch.float32)
+            cw0 = enc0(x0)
+            try:
+                cw = enc(x0.to(dt))
+                res.ev(len(msgs), nontrivial=len(msgs) - 1, transitions=1)
+                if tuple(cw.shape) != tuple(cw0.shape) or not torch.equal(cw.to(torch.float32), cw0):
+                    i = int((cw.to(torch.float32) != cw0).any(dim=1).nonzero()[0]) if tuple(cw.shape) == tuple(cw0.shape) else 0
+                    v("encoder", "transform", f"message {msgs[i]} given as {p['dtype']}: codeword {cw[i].tolist() if cw.dim() == 2 else tuple(cw.shape)} but the default encoder gives {cw0[i].tolist()}", {"msg": msgs[i]})
+            except Exception:  # noqa: BLE001
+                res.rejected += 1
+            noisy = torch.tensor([[((-1) ** ((i * 7 + j * 3) % 5 == 0)) * (0.3 + 0.37 * ((i * 5 + j) % 7)) for j in range(N)] for i in range(24)], dtype=torch.float32)
+            for comp, mk in (("sc", lambda e, r: SuccessiveCancellationDecoder(e, regime=r)), ("polar-bp", lambda e, r: BeliefPropagationPolarDecoder(e, bp_iters=6, regime=r))):
+                for regime in ("sum_product", "min_sum"):
+                    try:
+                        dec, dec0 = mk(enc, regime), mk(enc0, regime)
+                    except Exception:  # noqa: BLE001
+                        res.rejected += 1
+                        continue
+                    for mag in MAGS:
+                        llr = (1 - 2 * cw0) * mag
+                        for name, L, want in (("clean", llr, x0), ("noisy", noisy, None)):
+                            if name == "noisy" and mag != MAGS[0]:
+                                continue
+                            try:
+                                y = dec(L)
+                            except Exception as e:  # noqa: BLE001
+                                v(comp, "raises", f"{regime}, {name} LLRs magnitude {mag}: {type(e).__name__}: {str(e)[:160]}")
+                                break
+                            y0 = dec0(L)
+                            res.ev(L.shape[0], nontrivial=L.shape[0], transitions=2)
+                            ref = want if want is not None else y0.to(torch.float32)
+                            if tuple(y.shape) != tuple(ref.shape) or not torch.equal(y.to(torch.float32), ref):
+                                i = int((y.to(torch.float32) != ref).any(dim=1).nonzero()[0]) if tuple(y.shape) == tuple(ref.shape) else 0
+                                v(comp, "clean" if name == "clean" else "dtype-independent", f"{regime}: {name} LLRs {[round(t_, 3) for t_ in L[i].tolist()]} decoded to {y[i].tolist()} on the {p['dtype']} encoder, "
+                                  f"{'message ' + str(x0[i].tolist()) if want is not None else 'the default encoder gives ' + str(y0[i].tolist())}", {"regime": regime, "mag": mag})
+                                break
+    res.sample({"dtype": p["dtype"], "N": N, "ks": ks})
 
 
 def mask_case(p, res):
